@@ -32,8 +32,8 @@ META = {
 
 def plan(tier, seed):
     if tier == "thorough":
-        return [dict(seed=seed, shard=i, n=70) for i in range(16)]
-    return [dict(seed=seed, shard=i, n=6) for i in range(16)]
+        return [dict(seed=seed, shard=i, n=70) for i in range(16)] + [dict(seed=seed, shard="daemon", kind="daemon", n=2)]
+    return [dict(seed=seed, shard=i, n=6) for i in range(16)] + [dict(seed=seed, shard="daemon", kind="daemon", n=2)]
 
 
 def worker_program(rnd, forever=True, adoptees=None):
@@ -259,7 +259,15 @@ def gen_case(rnd, spec):
                         "program": [["ctx"], ["crit", 300], ["sleep", 0.01], ["crit", 300]]}
                 gen["payloads"].append(late)
                 ops += [["adopt", late["id"]], ["sleep", rnd.choice([0.0, 0.01, 0.03])]]
+                if rnd.random() < 0.6:
+                    # ... and call into the asyncio runner, which is closing but kept busy by a payload that has to be cancelled repeatedly
+                    call = {"id": new("windowx"), "flavour": "asyncio", "executed": True, "cleanup": {"kind": "none"},
+                            "program": [["ctx"], ["crit", 300], ["sleep", 0.01], ["crit", 300], ["return", "str"]]}
+                    gen["payloads"].append(call)
+                    ops += [["execute", call["id"]], ["sleep", rnd.choice([0.0, 0.02])]]
             script.append(["thread", ops])
+        gen["payloads"].append({"id": "stubborn", "flavour": "asyncio", "when": "queued", "program": [["ctx"], ["beat", 0.01, None]],
+                                "cleanup": {"kind": "absorb", "times": 3}})
         script.append(["shutdown"])
         gen.setdefault("tags", []).append("shutdown_window")
     # the runtime is not alone in its process: a second, independent runtime (a bare MetaRunner) runs beside it, or other
@@ -479,8 +487,49 @@ def execute(case, result):
     return judge(case, run, result), run
 
 
+def run_daemon_shard(spec, result):
+    """The daemon's own asyncio payload - the one that loads the configuration - is an asyncio payload like any other:
+    what it executes and constructs runs in the event loop thread, where the configured asyncio services run later."""
+    from vlib import proc
+
+    yaml_cfg = "pipeline:\n  - !VSvcCtrl {label: svcT, period: 0.05}\n  - !VSvcDeco {label: svcA, period: 0.05}\n  - !VSvcPool {label: svcP, period: 0.05}\n"
+    py_cfg = ("from vplug import VSvcCtrl, VSvcDeco, VSvcPool\n"
+              "pipeline = VSvcCtrl.s(label='svcT', period=0.05) >> VSvcDeco.s(label='svcA', period=0.05) >> VSvcPool(label='svcP', period=0.05)\n")
+    for idx, (fmt, text, suffix) in enumerate([("yaml", yaml_cfg, ".yaml"), ("python", py_cfg, ".py")]):
+        if spec.get("only_case") is not None and spec["only_case"] != idx:
+            continue
+        labels = ["svcT", "svcA", "svcP"]
+
+        def ready(events):
+            beats = {}
+            for e in events:
+                if e["kind"] == "beat":
+                    beats[e["label"]] = max(beats.get(e["label"], -1), e["n"])
+            return all(beats.get(lb, -1) >= 3 for lb in labels)
+
+        run = proc.run_daemon(text, suffix, ready, signal_after=0.2, timeout=25.0)
+        case = {"kind": "daemon", "format": fmt}
+        ctors = run.of("ctor")
+        home = [e for e in run.of("run") if e.get("label") == "svcA"]
+        result.case(dict(case, constructions=len(ctors)), nontrivial=bool(ctors and home), key=fmt)
+        if len(ctors) < 3 or not home:
+            result.inconc("daemon scenario (%s configuration): the services never came up (constructions %d, exit status %s): %s"
+                          % (fmt, len(ctors), run.exit_code, run.stderr[-600:]))
+            continue
+        result.count("daemon_configurations_loaded_by_the_runtimes_own_asyncio_payload")
+        away = [e for e in ctors if e["thread"] != home[0]["thread"] or not e.get("loop_running")]
+        if away:
+            result.violation("%s configuration of the daemon: %d of %d configured objects (first: %s) were constructed %s - the daemon's configuration-loading asyncio payload ran outside the event loop thread, where the asyncio service svcA runs"
+                             % (fmt, len(away), len(ctors), away[0].get("label"), "in another thread" if away[0]["thread"] != home[0]["thread"] else "with no event loop running"),
+                             dict(case, observed=[{k: e.get(k) for k in ("label", "thread", "loop_running")} for e in ctors[:6]]), None,
+                             spec={k: v for k, v in spec.items() if k != "only_case"}, case_id=idx)
+
+
 def run_shard(spec):
     result = core.Result()
+    if spec.get("kind") == "daemon":
+        run_daemon_shard(spec, result)
+        return result
     only = spec.get("only_case")
     for i in range(spec["n"]):
         if only is not None and i != only:
@@ -499,7 +548,7 @@ def finish(total, tier):
     need = ["synchronous_sections_checked", "blocking_thread_payloads_observed", "heartbeats_during_blocking", "scenarios_with_foreign_loop_submitter",
             "steps_adopted_threading", "sections_that_adopt_checked", "blocking_executes_observed", "scenarios_with_crowd", "scenarios_with_no_threads",
             "scenarios_with_parked_payloads_and_gc", "scenarios_with_thread_payload_adopted_again_while_running", "scenarios_with_compute_bound_thread_payload", "scenarios_with_adoption_of_16_blocking_thread_payloads_in_one_go", "callbacks_of_a_shipped_trio_service_checked", "scenarios_with_interrupt_in_a_thread_waiting_in_execute", "ends_by_thread_failure_beside_a_blocked_thread_checked", "compute_bound_thread_payloads_observed",
-            "scenarios_with_execute_from_foreign_trio_worker", "synchronous_first_sections_of_plain_callables_checked", "scenarios_with_shutdown_window", "payload_endings_checked", "scenarios_with_rival_runtime", "scenarios_with_rival_accepts"]
+            "scenarios_with_execute_from_foreign_trio_worker", "synchronous_first_sections_of_plain_callables_checked", "scenarios_with_shutdown_window", "payload_endings_checked", "scenarios_with_rival_runtime", "scenarios_with_rival_accepts", "daemon_configurations_loaded_by_the_runtimes_own_asyncio_payload"]
     need += ["steps_%s_%s" % (r, f) for r in ("adopted", "service", "executed") for f in common.COROUTINE]
     for name in need:
         if not total.counters.get(name) and not total.violations:
